@@ -12,7 +12,7 @@ import hashlib
 import json
 
 from .. import decode as dec
-from ..boot import SIM, set_capacity
+from ..boot import SIM, rearm_watchdog, set_capacity
 from ..workload import build_structure, pack_f64, pack_i32, parse_fmt
 
 KINDS = ("assemble", "compute", "evaluate")
@@ -448,6 +448,7 @@ def run_plan(plan, cfg=None):
 
         first = None
         for cap in plan["capacity_sweep"]:
+            rearm_watchdog()
             p = copy.deepcopy(plan)
             p["capacity"] = cap
             p["capacity_sweep"] = None
